@@ -108,7 +108,7 @@ def run(sc, tier, seed):
     files = meta["trace_files"]
     # 3. verdict level and drift level, one pool
     jobs = [("verdict", f) + VERDICT for f in files] + [("drift", f) + DRIFT for f in files]
-    res = _validate_jobs(sc, jobs)
+    res = _validate_jobs(sc, jobs, parallel=8 if tier == "quick" else 12)
     val = res.get("verdict", EMPTY)
     R.states += val["states"]
     R.handle_validation(val, what="two-run history violates C08 (verdict level)")
